@@ -12,6 +12,7 @@ import (
 	"sort"
 	"strings"
 	"sync"
+	"sync/atomic"
 	"time"
 
 	"github.com/facebookgo/inject"
@@ -19,6 +20,7 @@ import (
 	"github.com/jonboulle/clockwork"
 	"github.com/vmihailenco/msgpack/v5"
 	"go.opentelemetry.io/otel/trace"
+	"go.opentelemetry.io/otel/trace/noop"
 
 	"github.com/honeycombio/refinery/app"
 	"github.com/honeycombio/refinery/collect"
@@ -75,6 +77,9 @@ type bNode struct {
 	running  bool
 	stopping bool
 	heap     uint64
+	down     atomic.Bool
+	inflight sync.WaitGroup // handlers in progress; http.Server.Shutdown waits for them in production
+	heapOnce atomic.Uint64 // one-shot simulated heap reading (race mode: set without a lock)
 }
 
 // hnyEvent is one event as finally received by the fake Honeycomb API.
@@ -118,6 +123,7 @@ type worldB struct {
 	mu       sync.Mutex
 	hny      []*hnyEvent
 	peerLog  []*peerDelivery
+	stateless      bool // race mode: record nothing, take no harness lock on refinery's paths
 	bufferedAtStop map[string]bool
 	queuedAtStop   bool
 	authMode string // ok | fail | timeout
@@ -255,7 +261,7 @@ func (n *bNode) startNode() error {
 		{Value: n.coll},
 		{Value: metrics.MetricsBackend(&metrics.NullMetrics{}), Name: "promMetrics"},
 		{Value: metrics.MetricsBackend(&metrics.NullMetrics{}), Name: "otelMetrics"},
-		{Value: trace.Tracer(n.tr), Name: "tracer"},
+		{Value: n.tracerFor(), Name: "tracer"},
 		{Value: clockwork.Clock(n.clk)},
 		{Value: n.mm, Name: "metrics"},
 		{Value: "verif", Name: "version"},
@@ -285,6 +291,8 @@ func (n *bNode) startNode() error {
 	return nil
 }
 
+func (n *bNode) isUp() bool { return !n.down.Load() }
+
 // noteBuffered records which traces sit in the collector's buffer (or whether
 // spans sit in its queues) right now; used to tell where a span lost at
 // shutdown was when the shutdown happened.
@@ -304,11 +312,24 @@ func (n *bNode) noteBuffered() {
 	}
 }
 
+// tracerFor: the SimTracer takes a lock on every call, which would order
+// refinery's goroutines in a way the real program does not; the race runs use
+// the no-op tracer the production default uses.
+func (n *bNode) tracerFor() trace.Tracer {
+	if n.w.stateless {
+		return trace.Tracer(noop.Tracer{})
+	}
+	return trace.Tracer(n.tr)
+}
+
 var heapNodes sync.Map // *collect.InMemCollector -> *bNode
 
 func simHeapHook(i *collect.InMemCollector, real uint64) uint64 {
 	if v, ok := heapNodes.Load(i); ok {
 		n := v.(*bNode)
+		if once := n.heapOnce.Swap(0); once != 0 {
+			return once
+		}
 		return n.heap
 	}
 	return 0
@@ -325,7 +346,11 @@ func (n *bNode) shutdown() {
 	// startstop stops the routers first (the listeners close): from here on
 	// the node is unreachable for clients and peers
 	n.running = false
-	n.noteBuffered()
+	n.down.Store(true)
+	n.inflight.Wait() // what http.Server.Shutdown does for requests in progress
+	if !n.w.stateless {
+		n.noteBuffered()
+	}
 	startstop.Stop(n.objects, nullStartStopLogger{})
 }
 
@@ -344,9 +369,12 @@ func (w *worldB) honeycomb(rec *NetRec, req *http.Request) *SimResp {
 	from := req.Header.Get("X-Sim-From")
 	switch {
 	case strings.HasPrefix(rec.Path, "/1/auth"):
-		w.mu.Lock()
-		mode := w.authMode
-		w.mu.Unlock()
+		mode := "ok"
+		if !w.stateless {
+			w.mu.Lock()
+			mode = w.authMode
+			w.mu.Unlock()
+		}
 		switch mode {
 		case "fail":
 			w.out.Fault("auth_failure")
@@ -359,6 +387,17 @@ func (w *worldB) honeycomb(rec *NetRec, req *http.Request) *SimResp {
 			return &SimResp{Hang: true}
 		}
 		b, _ := json.Marshal(map[string]any{"id": "keyid1", "team": map[string]string{"slug": "t"}, "environment": map[string]string{"slug": "env1", "name": "env1"}, "api_key_access": map[string]bool{"events": true}})
+		return &SimResp{Status: 200, Header: http.Header{"Content-Type": {"application/json"}}, Body: b}
+	case strings.HasPrefix(rec.Path, "/1/batch/") && w.stateless:
+		items, err := decodeBatch(rec.Body)
+		if err != nil {
+			return &SimResp{Status: 400}
+		}
+		var resp []map[string]int
+		for range items {
+			resp = append(resp, map[string]int{"status": 202})
+		}
+		b, _ := json.Marshal(resp)
 		return &SimResp{Status: 200, Header: http.Header{"Content-Type": {"application/json"}}, Body: b}
 	case strings.HasPrefix(rec.Path, "/1/batch/"):
 		items, err := decodeBatch(rec.Body)
@@ -388,17 +427,19 @@ func (w *worldB) honeycomb(rec *NetRec, req *http.Request) *SimResp {
 func (n *bNode) servePeer(rec *NetRec, req *http.Request) *SimResp {
 	w := n.w
 	from := req.Header.Get("X-Sim-From")
-	if from == n.name {
+	if from == n.name && !w.stateless {
 		w.mu.Lock()
 		w.selfSend++
 		w.mu.Unlock()
 	}
-	if !n.running {
-		w.out.Fault("peer_unreachable")
+	if !n.isUp() {
+		if !w.stateless {
+			w.out.Fault("peer_unreachable")
+		}
 		return &SimResp{ConnErr: true}
 	}
 	// what is in it (for the oracles)
-	if strings.HasPrefix(rec.Path, "/1/batch/") {
+	if strings.HasPrefix(rec.Path, "/1/batch/") && !w.stateless {
 		if items, err := decodeBatch(rec.Body); err == nil {
 			ds, _ := url.PathUnescape(strings.TrimPrefix(rec.Path, "/1/batch/"))
 			w.mu.Lock()
@@ -418,7 +459,13 @@ func (n *bNode) servePeer(rec *NetRec, req *http.Request) *SimResp {
 	hreq.Header.Del("X-Sim-From")
 	hreq.RemoteAddr = from + ":1"
 	rw := newRespRec()
+	n.inflight.Add(1)
+	if !n.isUp() {
+		n.inflight.Done()
+		return &SimResp{ConnErr: true}
+	}
 	n.app.PeerRouter.VerifHandler().ServeHTTP(rw, hreq)
+	n.inflight.Done()
 	return &SimResp{Status: rw.status(), Header: rw.hdr, Body: rw.body.Bytes()}
 }
 
@@ -575,7 +622,7 @@ func (w *worldB) send(r *bRequest) {
 	r.sentAt = w.drv.Elapsed()
 	req := r.build()
 	r.resp = newRespRec()
-	if !n.running {
+	if !n.isUp() {
 		// connection refused
 		r.resp.WriteHeader(503)
 		r.finished = true
@@ -585,8 +632,13 @@ func (w *worldB) send(r *bRequest) {
 	if r.peer {
 		h = n.app.PeerRouter.VerifHandler()
 	}
+	n.inflight.Add(1)
 	go func() {
 		h.ServeHTTP(r.resp, req)
+		n.inflight.Done()
+		if w.stateless {
+			return
+		}
 		w.mu.Lock()
 		r.finished = true
 		w.mu.Unlock()
